@@ -72,3 +72,60 @@ def relations(rng, tier, rpt):
                     rep("WIF does not round-trip under the coin's version byte", "%s.%s" % (r["family"], r["member"]), k.hex(), b.PrivateKey().Raw().ToHex())
     rpt.extra["impl_end_to_end_checks"] = n
     return bad[:8]
+
+
+def search_broken(broken, rng):
+    """a table theorem failed: localise (member, field) against the pinned registry and exhibit a seed on which an observable
+    (address, extended keys, WIF, derived key) differs from the one obtained with the registered constants."""
+    from gen.gen_coins import rows, ADDR_FMT
+    from harness.props.addr_common import fmt_table, conv_kw
+    from bip_utils import Bip32KeyNetVersions, WifEncoder, Bip32KeyIndex
+    from bip_utils.bip.bip32.bip32_key_ser import Bip32PublicKeySerializer, Bip32PrivateKeySerializer
+    gold = json.load(open(os.path.join(VERIF, "golden", "registry.json")))["coinRows"]
+    cur = {(r["family"], r["member"], r["variant"]): r for r in rows()}
+    T = fmt_table()
+    seed = rand_seed(rng)
+    unobservable = []
+    for g in gold:
+        key = (g["family"], g["member"], g["variant"])
+        c = cur.get(key)
+        if c is None:
+            return {"relation": "registered coin %s.%s is no longer configured" % key[:2], "impl_output": "missing", "model_output": "present",
+                    "entry_point": "%sConfGetter.GetConfig" % g["family"]}
+        gp = [tuple(p) for p in g["addrParams"]]
+        diffs = [f for f in g if f != "addrParams" and g[f] != c[f]] + (["addrParams"] if gp != [tuple(p) for p in c["addrParams"]] else [])
+        if not diffs:
+            continue
+        cls, en, getter = FAM[g["family"]]
+        coin = en[g["member"]]
+        conf = getter.GetConfig(coin)
+        with Toggle(conf, g["variant"]):
+            try:
+                b = cls.FromSeed(seed, coin).DeriveDefaultPath()
+                got = {"addr": b.PublicKey().ToAddress() if g["addrFmt"] not in ("xmr", "adashelley") else "", "xpub": b.PublicKey().ToExtended(),
+                       "xprv": b.PrivateKey().ToExtended(), "wif": b.PrivateKey().ToWif(), "pub": b.PublicKey().RawCompressed().ToHex()}
+            except Exception as ex:  # noqa
+                return {"relation": "coin %s.%s no longer derives its default path (field %s changed)" % (key[0], key[1], diffs), "impl_output": type(ex).__name__,
+                        "model_output": "derivation succeeds", "request_lines": ["bip44 %s %s %s %s D" % (key[0], key[1], key[2] or "-", hx(seed))]}
+            # expectation with the registered constants, from lower-level calls
+            bip32_cls = conf.Bip32Class()
+            kv = Bip32KeyNetVersions(bytes(g["keyNetPub"]), bytes(g["keyNetPriv"]))
+            o = bip32_cls.FromSeed(seed, kv)
+            purpose = {"Bip44": 44, "Bip49": 49, "Bip84": 84, "Bip86": 86, "Cip1852": 1852}[g["family"]]
+            try:
+                o = o.ChildKey(Bip32KeyIndex.HardenIndex(purpose)).ChildKey(Bip32KeyIndex.HardenIndex(g["coinIdx"])).DerivePath(g["defPath"])
+                want = {"pub": o.PublicKey().RawCompressed().ToHex(), "xpub": o.PublicKey().ToExtended(), "xprv": o.PrivateKey().ToExtended()}
+                want["wif"] = WifEncoder.Encode(o.PrivateKey().Raw().ToBytes(), bytes(g["wifNetVer"])) if g["wifNetVer"] is not None else ""
+                if g["addrFmt"] in T and g["addrFmt"] not in ("xmr", "xmrint"):
+                    kw = {k: v for k, v in gp}
+                    want["addr"] = T[g["addrFmt"]][1].EncodeKey(o.PublicKey().KeyObject(), **conv_kw(g["addrFmt"], kw))
+            except Exception as ex:  # noqa
+                continue
+            for f in ("pub", "xpub", "xprv", "wif", "addr"):
+                if f in want and want[f] != got[f]:
+                    return {"relation": "coin %s.%s: field(s) %s differ from the registry and change the %s" % (key[0], key[1], diffs, f),
+                            "entry_point": "%s.FromSeed(seed, %s).DeriveDefaultPath()" % (key[0], key[1]), "input": seed.hex(),
+                            "impl_output": got[f], "model_output": want[f],
+                            "request_lines": ["bip44 %s %s %s %s D" % (key[0], key[1], key[2] or "-", hx(seed))]}
+            unobservable.append((key, diffs))
+    return None
